@@ -1,5 +1,188 @@
-import TshVerif.Model.ConvBash
+/-
+  C02 - Bash target preserves function-call semantics and variable isolation.
+
+  Proved here, about the model of transpiler.go + converters/bash/converter.go that the check ties to
+  the code byte for byte:
+    * `call_returns_all_values`: a used call hands back exactly as many values as the function declares;
+    * `return_registers_in_order` / `call_reads_registers_in_order`: `return v0, v1, …` stores into the
+      registers `_rv0, _rv1, …` in order, and the call site copies `_rv0, _rv1, …` in order into fresh
+      helpers immediately after the call line -- before any other call can clobber them;
+    * `parameters_bound_in_order`: parameter i is the `local` copy of positional argument i+1;
+    * `locals_are_mangled`, `globals_are_not`: inside a function a non-global name is emitted as
+      `f<funcCounter>_<name>`, a global name unchanged (so `=`, `op=`, `++`, multi-assignment, which all
+      go through `varName` with the variable's global flag, write the global in place);
+    * `each_function_gets_a_new_prefix`: `funcStart` increments the counter the prefix is built from;
+    * `multi_assignment_reads_temporaries`: with several targets every right-hand side is first stored
+      in a temporary `_ma<i>` and the stores to the targets read only those temporaries (`a, b = b, a`
+      uses the old values).
+  What bash does with `local`, `$n` and the registers is decided by the execution oracle of the check.
+-/
+import TshVerif.Lemmas.BashStmt
 namespace Tsh.C02
-open Tsh Tsh.Bash
+open Tsh Tsh.Tr Tsh.Bash
+
+theorem copyRets_length : ∀ (n i : Nat) (s s' : St) (vs : List String), copyRets n i s = .ok (vs, s') → vs.length = n := by
+  intro n
+  induction n with
+  | zero => intro i s s' vs h; simp [copyRets, pure] at h; simp [h.1.symm]
+  | succ n ih =>
+    intro i s s' vs h
+    unfold copyRets at h
+    obtain ⟨_, _, _, h⟩ := bind_ok h
+    obtain ⟨_, _, _, h⟩ := bind_ok h
+    obtain ⟨_, _, _, h⟩ := bind_ok h
+    obtain ⟨_, _, _, h⟩ := bind_ok h
+    obtain ⟨rest, _, hr, h⟩ := bind_ok h
+    have := (pure_ok h).1
+    simp [this, ih _ _ _ _ hr]
+
+/-- **All declared return values reach the call site.** -/
+theorem call_returns_all_values (name : String) (args : List String) (rets : List ValueType) (used : Bool)
+    (s s' : St) (vs : List String) (h : funcCall name args rets used s = .ok (vs, s')) : vs.length = rets.length := by
+  unfold funcCall at h
+  obtain ⟨_, s1, _, h⟩ := bind_ok h
+  obtain ⟨out, s2, ho, h⟩ := bind_ok h
+  have hv := (pure_ok h).1
+  subst hv
+  cases used with
+  | true =>
+    simp only [if_true] at ho
+    have := copyRets_length _ _ _ _ _ ho
+    simp [this]
+  | false =>
+    simp only [Bool.false_eq_true, if_false] at ho
+    have := (pure_ok ho).1
+    simp [this]
+
+/-- the lines `return v0, v1, …` stores: `_rv<i>="v_i"` for i = start, start+1, … -/
+def retLines : List String → Nat → List Line
+  | [], _ => []
+  | v :: rest, i => .assign s!"_rv{i}" v :: retLines rest (i + 1)
+
+/-- **Return values travel through the registers in order.** -/
+theorem return_registers_in_order : ∀ (vs : List String) (i : Nat) (s : St),
+    storeRets vs i s = .ok ((), { s with code := (retLines vs i).reverse ++ s.code }) := by
+  intro vs
+  induction vs with
+  | nil => intro i s; simp [storeRets, retLines, pure]
+  | cons v rest ih =>
+    intro i s
+    unfold storeRets
+    simp only [bind, varAssignment, Tr.get, addLine, Tr.modify, varName, Bool.not_true, Bool.and_false, Bool.false_eq_true, if_false]
+    rw [ih]
+    simp [retLines]
+
+/-- the lines a used call emits after the call line: `_h<k+j>="${_rv<i+j>}"` -/
+def copyLines (s : St) : Nat → Nat → Nat → List Line
+  | 0, _, _ => []
+  | n + 1, i, k => .assign (varName s s!"_h{k}" false) (varEvalString s s!"_rv{i}" true) :: copyLines s n (i + 1) (k + 1)
+
+/-- the references to those helpers -/
+def copyVals (s : St) : Nat → Nat → List String
+  | 0, _ => []
+  | n + 1, k => varEvalString s s!"_h{k}" false :: copyVals s n (k + 1)
+
+theorem copyRets_run : ∀ (n i : Nat) (s t : St), t.funcs = s.funcs → t.funcCounter = s.funcCounter →
+    copyRets n i t = .ok (copyVals s n t.varCounter,
+      { t with varCounter := t.varCounter + n, code := (copyLines s n i t.varCounter).reverse ++ t.code }) := by
+  intro n
+  induction n with
+  | zero => intro i s t _ _; simp [copyRets, copyLines, copyVals, pure]
+  | succ n ih =>
+    intro i s t hf hc
+    unfold copyRets
+    simp only [bind, nextHelperVar, Tr.get, varAssignment, addLine, Tr.modify, varEvaluation, pure]
+    rw [ih (i + 1) s]
+    · simp [copyLines, copyVals, varName, varEvalString, inFunction, hf, hc, Nat.add_assoc, Nat.add_comm 1 n]
+    · exact hf
+    · exact hc
+
+/-- **The call site reads the registers in order, into fresh helpers.** -/
+theorem call_reads_registers_in_order (n i : Nat) (s : St) :
+    copyRets n i s = .ok (copyVals s n s.varCounter,
+      { s with varCounter := s.varCounter + n, code := (copyLines s n i s.varCounter).reverse ++ s.code }) :=
+  copyRets_run n i s s rfl rfl
+
+/-- the `local` lines of a function head -/
+def paramLines (s : St) : List String → Nat → List Line
+  | [], _ => []
+  | p :: rest, i => .localAssign (varName s p false) s!"${i + 1}" :: paramLines s rest (i + 1)
+
+theorem localParams_run : ∀ (ps : List String) (i : Nat) (s t : St), t.funcs = s.funcs → t.funcCounter = s.funcCounter →
+    localParams ps i t = .ok ((), { t with code := (paramLines s ps i).reverse ++ t.code }) := by
+  intro ps
+  induction ps with
+  | nil => intro i s t _ _; simp [localParams, paramLines, pure]
+  | cons p rest ih =>
+    intro i s t hf hc
+    unfold localParams
+    simp only [bind, Tr.get, addLine, Tr.modify]
+    rw [ih (i + 1) s]
+    · simp [paramLines, varName, inFunction, hf, hc]
+    · exact hf
+    · exact hc
+
+/-- **Arguments are bound to parameters in order**, as `local` copies of `$1`, `$2`, … -/
+theorem parameters_bound_in_order (ps : List String) (i : Nat) (s : St) :
+    localParams ps i s = .ok ((), { s with code := (paramLines s ps i).reverse ++ s.code }) :=
+  localParams_run ps i s s rfl rfl
+
+/-- **Locals are mangled** with the number of the function being emitted … -/
+theorem locals_are_mangled (s : St) (name : String) (h : s.funcs ≠ []) :
+    varName s name false = s!"f{s.funcCounter}_{name}" := by
+  cases hf : s.funcs with
+  | nil => exact absurd hf h
+  | cons a b => simp [varName, inFunction, hf]
+
+/-- … **globals are not**, neither inside nor outside a function, and at top level nothing is. -/
+theorem globals_are_not (s : St) (name : String) : varName s name true = name := by
+  simp [varName]
+
+theorem top_level_names_unchanged (s : St) (name : String) (g : Bool) (h : s.funcs = []) : varName s name g = name := by
+  simp [varName, inFunction, h]
+
+/-- every function definition gets a new prefix number, larger than all earlier ones -/
+theorem each_function_gets_a_new_prefix (name : String) (ps : List String) (s s' : St) (a : Unit)
+    (h : conv.funcStart name ps s = .ok (a, s')) : s'.funcCounter = s.funcCounter + 1 ∧ s'.funcs = name :: s.funcs := by
+  have f := funcStart_ok h
+  exact ⟨f.funcCounter, f.funcs⟩
+
+/-- the values of a multi-assignment: with more than one target every value is a reference to a temporary `_ma<i>` -/
+theorem multi_assignment_reads_temporaries (count : Nat) (hc : count > 1) :
+    ∀ (n : Nat) (vals : List Expr) (i : Nat) (s s' : St) (values : List String),
+      assignedValues conv count vals n i s = .ok (values, s') →
+      ∀ v ∈ values, ∃ j : Nat, v = varEvalString s s!"_ma{j}" false := by
+  intro n
+  induction n with
+  | zero => intro vals i s s' values h; simp [assignedValues, pure] at h; obtain ⟨rfl, _⟩ := h; simp
+  | succ n ih =>
+    intro vals i s s' values h
+    cases vals with
+    | nil => simp [assignedValues, Tr.panic] at h
+    | cons e rest =>
+      unfold assignedValues at h
+      obtain ⟨r, s1, h1, h⟩ := bind_ok h
+      obtain ⟨v, s2, h2, h⟩ := bind_ok h
+      obtain ⟨vs, s3, h3, h⟩ := bind_ok h
+      have hv := (pure_ok h).1
+      subst hv
+      simp only [hc, if_true] at h2
+      obtain ⟨_, s1', h21, h22⟩ := bind_ok h2
+      have f1 := (evalExpr_simple e true).frame _ _ _ h1
+      have f2 := (simple_varAssignment _ _ _).frame _ _ _ h21
+      have f12 := f1.trans f2
+      have hv' : v = varEvalString s s!"_ma{i}" false := by
+        have : varEvaluation s!"_ma{i}" false s1' = .ok (v, s2) := h22
+        simp [varEvaluation, bind, Tr.get, pure] at this
+        rw [← this.1]
+        simp [varEvalString, varName, inFunction, f12.funcs, f12.funcCounter]
+      have f22 : Frame s1' s2 := (simple_varEvaluation _ _).frame _ _ _ h22
+      have f02 := f12.trans f22
+      intro w hw
+      simp at hw
+      rcases hw with rfl | hw
+      · exact ⟨i, hv'⟩
+      · obtain ⟨j, hj⟩ := ih rest (i + 1) s2 s3 vs h3 w hw
+        exact ⟨j, by rw [hj]; simp [varEvalString, varName, inFunction, f02.funcs, f02.funcCounter]⟩
 
 end Tsh.C02
